@@ -266,12 +266,11 @@ macro_rules! fake {
         returns: $ret_val:expr,
         times: $expected:expr
     ) => {{
-         use std::sync::atomic::{AtomicUsize, Ordering};
-         static FAKE_COUNTER: AtomicUsize = AtomicUsize::new(0);
+         static FAKE_COUNTER: std::sync::atomic::AtomicUsize = std::sync::atomic::AtomicUsize::new(0);
          let verifier = CallCountVerifier::WithCount { counter: &FAKE_COUNTER, expected: $expected };
          fn fake($($arg_name: $arg_ty),*) -> $ret {
              if $cond {
-                 let prev = FAKE_COUNTER.fetch_add(1, Ordering::SeqCst);
+                 let prev = FAKE_COUNTER.fetch_add(1, std::sync::atomic::Ordering::SeqCst);
                  if prev >= $expected {
                      panic!("Fake function defined at {}:{}:{} called more times than expected", file!(), line!(), column!());
                  }
@@ -312,12 +311,11 @@ macro_rules! fake {
         returns: $ret_val:expr,
         times: $expected:expr
     ) => {{
-         use std::sync::atomic::{AtomicUsize, Ordering};
-         static FAKE_COUNTER: AtomicUsize = AtomicUsize::new(0);
+         static FAKE_COUNTER: std::sync::atomic::AtomicUsize = std::sync::atomic::AtomicUsize::new(0);
          let verifier = CallCountVerifier::WithCount { counter: &FAKE_COUNTER, expected: $expected };
          fn fake($($arg_name: $arg_ty),*) -> $ret {
              if $cond {
-                 let prev = FAKE_COUNTER.fetch_add(1, Ordering::SeqCst);
+                 let prev = FAKE_COUNTER.fetch_add(1, std::sync::atomic::Ordering::SeqCst);
                  if prev >= $expected {
                      panic!("Fake function defined at {}:{}:{} called more times than expected", file!(), line!(), column!());
                  }
@@ -372,12 +370,11 @@ macro_rules! fake {
         returns: $ret_val:expr,
         times: $expected:expr
     ) => {{
-         use std::sync::atomic::{AtomicUsize, Ordering};
-         static FAKE_COUNTER: AtomicUsize = AtomicUsize::new(0);
+         static FAKE_COUNTER: std::sync::atomic::AtomicUsize = std::sync::atomic::AtomicUsize::new(0);
          let verifier = CallCountVerifier::WithCount { counter: &FAKE_COUNTER, expected: $expected };
          fn fake($($arg_name: $arg_ty),*) -> $ret {
              if true {
-                 let prev = FAKE_COUNTER.fetch_add(1, Ordering::SeqCst);
+                 let prev = FAKE_COUNTER.fetch_add(1, std::sync::atomic::Ordering::SeqCst);
                  if prev >= $expected {
                      panic!("Fake function defined at {}:{}:{} called more times than expected", file!(), line!(), column!());
                  }
@@ -416,12 +413,11 @@ macro_rules! fake {
         returns: $ret_val:expr,
         times: $expected:expr
     ) => {{
-         use std::sync::atomic::{AtomicUsize, Ordering};
-         static FAKE_COUNTER: AtomicUsize = AtomicUsize::new(0);
+         static FAKE_COUNTER: std::sync::atomic::AtomicUsize = std::sync::atomic::AtomicUsize::new(0);
          let verifier = CallCountVerifier::WithCount { counter: &FAKE_COUNTER, expected: $expected };
          fn fake($($arg_name: $arg_ty),*) -> $ret {
              if true {
-                 let prev = FAKE_COUNTER.fetch_add(1, Ordering::SeqCst);
+                 let prev = FAKE_COUNTER.fetch_add(1, std::sync::atomic::Ordering::SeqCst);
                  if prev >= $expected {
                      panic!("Fake function defined at {}:{}:{} called more times than expected", file!(), line!(), column!());
                  }
@@ -477,12 +473,11 @@ macro_rules! fake {
         assign: { $($assign:tt)* },
         times: $expected:expr
     ) => {{
-         use std::sync::atomic::{AtomicUsize, Ordering};
-         static FAKE_COUNTER: AtomicUsize = AtomicUsize::new(0);
+         static FAKE_COUNTER: std::sync::atomic::AtomicUsize = std::sync::atomic::AtomicUsize::new(0);
          let verifier = CallCountVerifier::WithCount { counter: &FAKE_COUNTER, expected: $expected };
          fn fake($($arg_name: $arg_ty),*) -> () {
              if $cond {
-                 let prev = FAKE_COUNTER.fetch_add(1, Ordering::SeqCst);
+                 let prev = FAKE_COUNTER.fetch_add(1, std::sync::atomic::Ordering::SeqCst);
                  if prev >= $expected {
                      panic!("Fake function defined at {}:{}:{} called more times than expected", file!(), line!(), column!());
                  }
@@ -501,12 +496,11 @@ macro_rules! fake {
         when: $cond:expr,
         times: $expected:expr
     ) => {{
-         use std::sync::atomic::{AtomicUsize, Ordering};
-         static FAKE_COUNTER: AtomicUsize = AtomicUsize::new(0);
+         static FAKE_COUNTER: std::sync::atomic::AtomicUsize = std::sync::atomic::AtomicUsize::new(0);
          let verifier = CallCountVerifier::WithCount { counter: &FAKE_COUNTER, expected: $expected };
          fn fake($($arg_name: $arg_ty),*) -> () {
              if $cond {
-                 let prev = FAKE_COUNTER.fetch_add(1, Ordering::SeqCst);
+                 let prev = FAKE_COUNTER.fetch_add(1, std::sync::atomic::Ordering::SeqCst);
                  if prev >= $expected {
                      panic!("Fake function defined at {}:{}:{} called more times than expected", file!(), line!(), column!());
                  }
@@ -560,13 +554,11 @@ macro_rules! fake {
         assign: { $($assign:tt)* },
         times: $expected:expr
     ) => {{
-
-        use std::sync::atomic::{AtomicUsize, Ordering};
-         static FAKE_COUNTER: AtomicUsize = AtomicUsize::new(0);
+         static FAKE_COUNTER: std::sync::atomic::AtomicUsize = std::sync::atomic::AtomicUsize::new(0);
          let verifier = CallCountVerifier::WithCount { counter: &FAKE_COUNTER, expected: $expected };
          fn fake($($arg_name: $arg_ty),*) -> () {
              if true {
-                 let prev = FAKE_COUNTER.fetch_add(1, Ordering::SeqCst);
+                 let prev = FAKE_COUNTER.fetch_add(1, std::sync::atomic::Ordering::SeqCst);
                  if prev >= $expected {
                      panic!("Fake function defined at {}:{}:{} called more times than expected", file!(), line!(), column!());
                  }
@@ -585,12 +577,11 @@ macro_rules! fake {
         func_type: fn($($arg_name:ident: $arg_ty:ty),*) -> (),
         times: $expected:expr
     ) => {{
-         use std::sync::atomic::{AtomicUsize, Ordering};
-         static FAKE_COUNTER: AtomicUsize = AtomicUsize::new(0);
+         static FAKE_COUNTER: std::sync::atomic::AtomicUsize = std::sync::atomic::AtomicUsize::new(0);
          let verifier = CallCountVerifier::WithCount { counter: &FAKE_COUNTER, expected: $expected };
          fn fake($($arg_name: $arg_ty),*) -> () {
              if true {
-                 let prev = FAKE_COUNTER.fetch_add(1, Ordering::SeqCst);
+                 let prev = FAKE_COUNTER.fetch_add(1, std::sync::atomic::Ordering::SeqCst);
                  if prev >= $expected {
                      panic!("Fake function defined at {}:{}:{} called more times than expected", file!(), line!(), column!());
                  }
@@ -640,12 +631,11 @@ macro_rules! fake {
         returns: $ret_val:expr,
         times: $expected:expr
     ) => {{
-        use std::sync::atomic::{AtomicUsize, Ordering};
-        static FAKE_COUNTER: AtomicUsize = AtomicUsize::new(0);
+        static FAKE_COUNTER: std::sync::atomic::AtomicUsize = std::sync::atomic::AtomicUsize::new(0);
         let verifier = CallCountVerifier::WithCount { counter: &FAKE_COUNTER, expected: $expected };
         unsafe fn fake($($arg_name: $arg_ty),*) -> $ret {
             if true {
-                let prev = FAKE_COUNTER.fetch_add(1, Ordering::SeqCst);
+                let prev = FAKE_COUNTER.fetch_add(1, std::sync::atomic::Ordering::SeqCst);
                 if prev >= $expected {
                     panic!("Fake function defined at {}:{}:{} called more times than expected", file!(), line!(), column!());
                 }
@@ -684,12 +674,11 @@ macro_rules! fake {
         returns: $ret_val:expr,
         times: $expected:expr
     ) => {{
-        use std::sync::atomic::{AtomicUsize, Ordering};
-        static FAKE_COUNTER: AtomicUsize = AtomicUsize::new(0);
+        static FAKE_COUNTER: std::sync::atomic::AtomicUsize = std::sync::atomic::AtomicUsize::new(0);
         let verifier = CallCountVerifier::WithCount { counter: &FAKE_COUNTER, expected: $expected };
         unsafe fn fake($($arg_name: $arg_ty),*) -> $ret {
             if true {
-                let prev = FAKE_COUNTER.fetch_add(1, Ordering::SeqCst);
+                let prev = FAKE_COUNTER.fetch_add(1, std::sync::atomic::Ordering::SeqCst);
                 if prev >= $expected {
                     panic!("Fake function defined at {}:{}:{} called more times than expected", file!(), line!(), column!());
                 }
@@ -709,12 +698,11 @@ macro_rules! fake {
         func_type: unsafe fn($($arg_name:ident: $arg_ty:ty),*) -> (),
         times: $expected:expr
     ) => {{
-        use std::sync::atomic::{AtomicUsize, Ordering};
-        static FAKE_COUNTER: AtomicUsize = AtomicUsize::new(0);
+        static FAKE_COUNTER: std::sync::atomic::AtomicUsize = std::sync::atomic::AtomicUsize::new(0);
         let verifier = CallCountVerifier::WithCount { counter: &FAKE_COUNTER, expected: $expected };
         unsafe fn fake($($arg_name: $arg_ty),*) -> () {
             if true {
-                let prev = FAKE_COUNTER.fetch_add(1, Ordering::SeqCst);
+                let prev = FAKE_COUNTER.fetch_add(1, std::sync::atomic::Ordering::SeqCst);
                 if prev >= $expected {
                     panic!("Fake function defined at {}:{}:{} called more times than expected", file!(), line!(), column!());
                 }
@@ -750,13 +738,11 @@ macro_rules! fake {
         assign: { $($assign:tt)* },
         times: $expected:expr
     ) => {{
-
-        use std::sync::atomic::{AtomicUsize, Ordering};
-         static FAKE_COUNTER: AtomicUsize = AtomicUsize::new(0);
+         static FAKE_COUNTER: std::sync::atomic::AtomicUsize = std::sync::atomic::AtomicUsize::new(0);
          let verifier = CallCountVerifier::WithCount { counter: &FAKE_COUNTER, expected: $expected };
          unsafe fn fake($($arg_name: $arg_ty),*) -> () {
              if true {
-                 let prev = FAKE_COUNTER.fetch_add(1, Ordering::SeqCst);
+                 let prev = FAKE_COUNTER.fetch_add(1, std::sync::atomic::Ordering::SeqCst);
                  if prev >= $expected {
                      panic!("Fake function defined at {}:{}:{} called more times than expected", file!(), line!(), column!());
                  }
@@ -792,12 +778,11 @@ macro_rules! fake {
         returns: $ret_val:expr,
         times: $expected:expr
     ) => {{
-        use std::sync::atomic::{AtomicUsize, Ordering};
-        static FAKE_COUNTER: AtomicUsize = AtomicUsize::new(0);
+        static FAKE_COUNTER: std::sync::atomic::AtomicUsize = std::sync::atomic::AtomicUsize::new(0);
         let verifier = CallCountVerifier::WithCount { counter: &FAKE_COUNTER, expected: $expected };
         unsafe extern "C" fn fake($($arg_name: $arg_ty),*) -> $ret {
             if $cond {
-                let prev = FAKE_COUNTER.fetch_add(1, Ordering::SeqCst);
+                let prev = FAKE_COUNTER.fetch_add(1, std::sync::atomic::Ordering::SeqCst);
                 if prev >= $expected {
                     panic!("Fake function defined at {}:{}:{} called more times than expected", file!(), line!(), column!());
                 }
@@ -838,12 +823,11 @@ macro_rules! fake {
         returns: $ret_val:expr,
         times: $expected:expr
     ) => {{
-        use std::sync::atomic::{AtomicUsize, Ordering};
-        static FAKE_COUNTER: AtomicUsize = AtomicUsize::new(0);
+        static FAKE_COUNTER: std::sync::atomic::AtomicUsize = std::sync::atomic::AtomicUsize::new(0);
         let verifier = CallCountVerifier::WithCount { counter: &FAKE_COUNTER, expected: $expected };
         unsafe extern "C" fn fake($($arg_name: $arg_ty),*) -> $ret {
             if $cond {
-                let prev = FAKE_COUNTER.fetch_add(1, Ordering::SeqCst);
+                let prev = FAKE_COUNTER.fetch_add(1, std::sync::atomic::Ordering::SeqCst);
                 if prev >= $expected {
                     panic!("Fake function defined at {}:{}:{} called more times than expected", file!(), line!(), column!());
                 }
@@ -863,12 +847,11 @@ macro_rules! fake {
         returns: $ret_val:expr,
         times: $expected:expr
     ) => {{
-        use std::sync::atomic::{AtomicUsize, Ordering};
-        static FAKE_COUNTER: AtomicUsize = AtomicUsize::new(0);
+        static FAKE_COUNTER: std::sync::atomic::AtomicUsize = std::sync::atomic::AtomicUsize::new(0);
         let verifier = CallCountVerifier::WithCount { counter: &FAKE_COUNTER, expected: $expected };
         unsafe extern "C" fn fake($($arg_name: $arg_ty),*) -> $ret {
             if true {
-                let prev = FAKE_COUNTER.fetch_add(1, Ordering::SeqCst);
+                let prev = FAKE_COUNTER.fetch_add(1, std::sync::atomic::Ordering::SeqCst);
                 if prev >= $expected {
                     panic!("Fake function defined at {}:{}:{} called more times than expected", file!(), line!(), column!());
                 }
@@ -907,12 +890,11 @@ macro_rules! fake {
         returns: $ret_val:expr,
         times: $expected:expr
     ) => {{
-        use std::sync::atomic::{AtomicUsize, Ordering};
-        static FAKE_COUNTER: AtomicUsize = AtomicUsize::new(0);
+        static FAKE_COUNTER: std::sync::atomic::AtomicUsize = std::sync::atomic::AtomicUsize::new(0);
         let verifier = CallCountVerifier::WithCount { counter: &FAKE_COUNTER, expected: $expected };
         unsafe extern "C" fn fake($($arg_name: $arg_ty),*) -> $ret {
             if true {
-                let prev = FAKE_COUNTER.fetch_add(1, Ordering::SeqCst);
+                let prev = FAKE_COUNTER.fetch_add(1, std::sync::atomic::Ordering::SeqCst);
                 if prev >= $expected {
                     panic!("Fake function defined at {}:{}:{} called more times than expected", file!(), line!(), column!());
                 }
@@ -933,12 +915,11 @@ macro_rules! fake {
         assign: { $($assign:tt)* },
         times: $expected:expr
     ) => {{
-        use std::sync::atomic::{AtomicUsize, Ordering};
-        static FAKE_COUNTER: AtomicUsize = AtomicUsize::new(0);
+        static FAKE_COUNTER: std::sync::atomic::AtomicUsize = std::sync::atomic::AtomicUsize::new(0);
         let verifier = CallCountVerifier::WithCount { counter: &FAKE_COUNTER, expected: $expected };
         unsafe extern "C" fn fake($($arg_name: $arg_ty),*) -> () {
             if $cond {
-                let prev = FAKE_COUNTER.fetch_add(1, Ordering::SeqCst);
+                let prev = FAKE_COUNTER.fetch_add(1, std::sync::atomic::Ordering::SeqCst);
                 if prev >= $expected {
                     panic!("Fake function defined at {}:{}:{} called more times than expected", file!(), line!(), column!());
                 }
@@ -957,12 +938,11 @@ macro_rules! fake {
         when: $cond:expr,
         times: $expected:expr
     ) => {{
-        use std::sync::atomic::{AtomicUsize, Ordering};
-        static FAKE_COUNTER: AtomicUsize = AtomicUsize::new(0);
+        static FAKE_COUNTER: std::sync::atomic::AtomicUsize = std::sync::atomic::AtomicUsize::new(0);
         let verifier = CallCountVerifier::WithCount { counter: &FAKE_COUNTER, expected: $expected };
         unsafe extern "C" fn fake($($arg_name: $arg_ty),*) -> () {
             if $cond {
-                let prev = FAKE_COUNTER.fetch_add(1, Ordering::SeqCst);
+                let prev = FAKE_COUNTER.fetch_add(1, std::sync::atomic::Ordering::SeqCst);
                 if prev >= $expected {
                     panic!("Fake function defined at {}:{}:{} called more times than expected", file!(), line!(), column!());
                 }
@@ -1016,13 +996,11 @@ macro_rules! fake {
         assign: { $($assign:tt)* },
         times: $expected:expr
     ) => {{
-
-        use std::sync::atomic::{AtomicUsize, Ordering};
-         static FAKE_COUNTER: AtomicUsize = AtomicUsize::new(0);
+         static FAKE_COUNTER: std::sync::atomic::AtomicUsize = std::sync::atomic::AtomicUsize::new(0);
          let verifier = CallCountVerifier::WithCount { counter: &FAKE_COUNTER, expected: $expected };
          unsafe extern "C" fn fake($($arg_name: $arg_ty),*) -> () {
              if true {
-                 let prev = FAKE_COUNTER.fetch_add(1, Ordering::SeqCst);
+                 let prev = FAKE_COUNTER.fetch_add(1, std::sync::atomic::Ordering::SeqCst);
                  if prev >= $expected {
                      panic!("Fake function defined at {}:{}:{} called more times than expected", file!(), line!(), column!());
                  }
@@ -1041,12 +1019,11 @@ macro_rules! fake {
         func_type: unsafe extern "C" fn($($arg_name:ident: $arg_ty:ty),*) -> (),
         times: $expected:expr
     ) => {{
-         use std::sync::atomic::{AtomicUsize, Ordering};
-         static FAKE_COUNTER: AtomicUsize = AtomicUsize::new(0);
+         static FAKE_COUNTER: std::sync::atomic::AtomicUsize = std::sync::atomic::AtomicUsize::new(0);
          let verifier = CallCountVerifier::WithCount { counter: &FAKE_COUNTER, expected: $expected };
          unsafe extern "C" fn fake($($arg_name: $arg_ty),*) -> () {
              if true {
-                 let prev = FAKE_COUNTER.fetch_add(1, Ordering::SeqCst);
+                 let prev = FAKE_COUNTER.fetch_add(1, std::sync::atomic::Ordering::SeqCst);
                  if prev >= $expected {
                      panic!("Fake function defined at {}:{}:{} called more times than expected", file!(), line!(), column!());
                  }
@@ -1080,12 +1057,11 @@ macro_rules! fake {
         returns: $ret_val:expr,
         times: $expected:expr
     ) => {{
-        use std::sync::atomic::{AtomicUsize, Ordering};
-        static FAKE_COUNTER: AtomicUsize = AtomicUsize::new(0);
+        static FAKE_COUNTER: std::sync::atomic::AtomicUsize = std::sync::atomic::AtomicUsize::new(0);
         let verifier = CallCountVerifier::WithCount { counter: &FAKE_COUNTER, expected: $expected };
         unsafe extern "system" fn fake($($arg_name: $arg_ty),*) -> $ret {
             if $cond {
-                let prev = FAKE_COUNTER.fetch_add(1, Ordering::SeqCst);
+                let prev = FAKE_COUNTER.fetch_add(1, std::sync::atomic::Ordering::SeqCst);
                 if prev >= $expected {
                     panic!("Fake function defined at {}:{}:{} called more times than expected", file!(), line!(), column!());
                 }
@@ -1126,12 +1102,11 @@ macro_rules! fake {
         returns: $ret_val:expr,
         times: $expected:expr
     ) => {{
-        use std::sync::atomic::{AtomicUsize, Ordering};
-        static FAKE_COUNTER: AtomicUsize = AtomicUsize::new(0);
+        static FAKE_COUNTER: std::sync::atomic::AtomicUsize = std::sync::atomic::AtomicUsize::new(0);
         let verifier = CallCountVerifier::WithCount { counter: &FAKE_COUNTER, expected: $expected };
         unsafe extern "system" fn fake($($arg_name: $arg_ty),*) -> $ret {
             if $cond {
-                let prev = FAKE_COUNTER.fetch_add(1, Ordering::SeqCst);
+                let prev = FAKE_COUNTER.fetch_add(1, std::sync::atomic::Ordering::SeqCst);
                 if prev >= $expected {
                     panic!("Fake function defined at {}:{}:{} called more times than expected", file!(), line!(), column!());
                 }
@@ -1151,12 +1126,11 @@ macro_rules! fake {
         returns: $ret_val:expr,
         times: $expected:expr
     ) => {{
-        use std::sync::atomic::{AtomicUsize, Ordering};
-        static FAKE_COUNTER: AtomicUsize = AtomicUsize::new(0);
+        static FAKE_COUNTER: std::sync::atomic::AtomicUsize = std::sync::atomic::AtomicUsize::new(0);
         let verifier = CallCountVerifier::WithCount { counter: &FAKE_COUNTER, expected: $expected };
         unsafe extern "system" fn fake($($arg_name: $arg_ty),*) -> $ret {
             if true {
-                let prev = FAKE_COUNTER.fetch_add(1, Ordering::SeqCst);
+                let prev = FAKE_COUNTER.fetch_add(1, std::sync::atomic::Ordering::SeqCst);
                 if prev >= $expected {
                     panic!("Fake function defined at {}:{}:{} called more times than expected", file!(), line!(), column!());
                 }
@@ -1195,12 +1169,11 @@ macro_rules! fake {
         returns: $ret_val:expr,
         times: $expected:expr
     ) => {{
-        use std::sync::atomic::{AtomicUsize, Ordering};
-        static FAKE_COUNTER: AtomicUsize = AtomicUsize::new(0);
+        static FAKE_COUNTER: std::sync::atomic::AtomicUsize = std::sync::atomic::AtomicUsize::new(0);
         let verifier = CallCountVerifier::WithCount { counter: &FAKE_COUNTER, expected: $expected };
         unsafe extern "system" fn fake($($arg_name: $arg_ty),*) -> $ret {
             if true {
-                let prev = FAKE_COUNTER.fetch_add(1, Ordering::SeqCst);
+                let prev = FAKE_COUNTER.fetch_add(1, std::sync::atomic::Ordering::SeqCst);
                 if prev >= $expected {
                     panic!("Fake function defined at {}:{}:{} called more times than expected", file!(), line!(), column!());
                 }
@@ -1237,12 +1210,11 @@ macro_rules! fake {
         assign: { $($assign:tt)* },
         times: $expected:expr
     ) => {{
-        use std::sync::atomic::{AtomicUsize, Ordering};
-        static FAKE_COUNTER: AtomicUsize = AtomicUsize::new(0);
+        static FAKE_COUNTER: std::sync::atomic::AtomicUsize = std::sync::atomic::AtomicUsize::new(0);
         let verifier = CallCountVerifier::WithCount { counter: &FAKE_COUNTER, expected: $expected };
         unsafe extern "system" fn fake($($arg_name: $arg_ty),*) -> () {
             if $cond {
-                let prev = FAKE_COUNTER.fetch_add(1, Ordering::SeqCst);
+                let prev = FAKE_COUNTER.fetch_add(1, std::sync::atomic::Ordering::SeqCst);
                 if prev >= $expected {
                     panic!("Fake function defined at {}:{}:{} called more times than expected", file!(), line!(), column!());
                 }
@@ -1261,12 +1233,11 @@ macro_rules! fake {
         when: $cond:expr,
         times: $expected:expr
     ) => {{
-        use std::sync::atomic::{AtomicUsize, Ordering};
-        static FAKE_COUNTER: AtomicUsize = AtomicUsize::new(0);
+        static FAKE_COUNTER: std::sync::atomic::AtomicUsize = std::sync::atomic::AtomicUsize::new(0);
         let verifier = CallCountVerifier::WithCount { counter: &FAKE_COUNTER, expected: $expected };
         unsafe extern "system" fn fake($($arg_name: $arg_ty),*) -> () {
             if $cond {
-                let prev = FAKE_COUNTER.fetch_add(1, Ordering::SeqCst);
+                let prev = FAKE_COUNTER.fetch_add(1, std::sync::atomic::Ordering::SeqCst);
                 if prev >= $expected {
                     panic!("Fake function defined at {}:{}:{} called more times than expected", file!(), line!(), column!());
                 }
@@ -1320,13 +1291,11 @@ macro_rules! fake {
         assign: { $($assign:tt)* },
         times: $expected:expr
     ) => {{
-
-        use std::sync::atomic::{AtomicUsize, Ordering};
-         static FAKE_COUNTER: AtomicUsize = AtomicUsize::new(0);
+         static FAKE_COUNTER: std::sync::atomic::AtomicUsize = std::sync::atomic::AtomicUsize::new(0);
          let verifier = CallCountVerifier::WithCount { counter: &FAKE_COUNTER, expected: $expected };
          unsafe extern "system" fn fake($($arg_name: $arg_ty),*) -> () {
              if true {
-                 let prev = FAKE_COUNTER.fetch_add(1, Ordering::SeqCst);
+                 let prev = FAKE_COUNTER.fetch_add(1, std::sync::atomic::Ordering::SeqCst);
                  if prev >= $expected {
                      panic!("Fake function defined at {}:{}:{} called more times than expected", file!(), line!(), column!());
                  }
@@ -1345,12 +1314,11 @@ macro_rules! fake {
         func_type: unsafe extern "system" fn($($arg_name:ident: $arg_ty:ty),*) -> (),
         times: $expected:expr
     ) => {{
-         use std::sync::atomic::{AtomicUsize, Ordering};
-         static FAKE_COUNTER: AtomicUsize = AtomicUsize::new(0);
+         static FAKE_COUNTER: std::sync::atomic::AtomicUsize = std::sync::atomic::AtomicUsize::new(0);
          let verifier = CallCountVerifier::WithCount { counter: &FAKE_COUNTER, expected: $expected };
          unsafe extern "system" fn fake($($arg_name: $arg_ty),*) -> () {
              if true {
-                 let prev = FAKE_COUNTER.fetch_add(1, Ordering::SeqCst);
+                 let prev = FAKE_COUNTER.fetch_add(1, std::sync::atomic::Ordering::SeqCst);
                  if prev >= $expected {
                      panic!("Fake function defined at {}:{}:{} called more times than expected", file!(), line!(), column!());
                  }
